@@ -1394,7 +1394,8 @@ MANIFEST = {
             "bit positions) of signature, server signature (octets and base64 text, plus all truncations), "
             "client proof, challenge, nonce, salt, secret, public key and channel id, and +-1 on "
             "iterations/keylen/memory: the outcome must be a different signature or a rejection; the SCRAM "
-            "client must accept a WELCOME iff it carries the correct 32-octet server signature.",
+            "client must accept a WELCOME iff it carries the correct 32-octet server signature."
+            " Secrets and passwords that begin or end with a blank are part of the grids.",
     "note": "Trusted: hashlib/hmac/OpenSSL (PBKDF2 cross-checked with an RFC 8018 transcription and RFC 7914 "
             "vectors), argon2-cffi hash_secret_raw, `cryptography` Ed25519, stdlib stringprep tables for "
             "SASLprep. The SCRAM AuthMessage layout and the base64-text Argon2 salted password are taken "
